@@ -127,4 +127,69 @@ theorem keys_compLoop (comps : List Node) (i : Nat) (d : LabelDict) :
         simp at hb; subst hb; subst hab
         exact hp ha
 
+/-! ### node labels -/
+
+theorem splitFirst_clean (c : Char) (a r : Str) (h : a.contains c = false) :
+    splitFirst c (a ++ c :: r) = some (a, r) := by
+  induction a with
+  | nil => simp [splitFirst]
+  | cons x t ih =>
+    simp only [List.contains_cons, Bool.or_eq_false_iff] at h
+    have hx : ¬ x = c := by
+      intro hxc; subst hxc; simp at h
+    simp [splitFirst, hx, ih h.2]
+
+theorem splitFirst_none (c : Char) (a : Str) (h : a.contains c = false) : splitFirst c a = none := by
+  induction a with
+  | nil => simp [splitFirst]
+  | cons x t ih =>
+    simp only [List.contains_cons, Bool.or_eq_false_iff] at h
+    have hx : ¬ x = c := by
+      intro hxc; subst hxc; simp at h
+    simp [splitFirst, hx, ih h.2]
+
+theorem decodeBinder_label (i : LabelIn) (hn : i.name.contains '%' = false)
+    (hb : ∀ b, i.binder = some b → b.contains '%' = false) :
+    decodeBinder (bindingLabel i ++ i.name) = (i.binder, i.name) := by
+  cases hbi : i.binder with
+  | none => simp [bindingLabel, hbi, decodeBinder, splitFirst_none _ _ hn]
+  | some b =>
+    have := splitFirst_clean '%' b i.name (hb b hbi)
+    simp [bindingLabel, hbi, decodeBinder, this]
+
+theorem clean_parts {i : LabelIn} (h : i.clean = true) :
+    i.name.contains ':' = false ∧ i.name.contains '%' = false
+      ∧ (∀ p, i.parent = some p → p.contains ':' = false)
+      ∧ (∀ b, i.binder = some b → b.contains ':' = false ∧ b.contains '%' = false) := by
+  simp only [LabelIn.clean, cleanName, Bool.and_eq_true, Bool.not_eq_true'] at h
+  obtain ⟨⟨⟨h1, h2⟩, h3⟩, h4⟩ := h
+  refine ⟨h1, h2, ?_, ?_⟩
+  · intro p hp; simp [hp, cleanName] at h3; simpa using h3.1
+  · intro b hb; simp [hb, cleanName] at h4; simpa using h4
+
+/-- a label written with `show_proc_parent` can be read back: scope, type and name -/
+theorem decodeLabel_procLabel (i : LabelIn) (h : i.clean = true) : decodeLabel (procLabel true i) = i := by
+  obtain ⟨hn1, hn2, hp, hb⟩ := clean_parts h
+  have hdb := decodeBinder_label i hn2 (fun b hbi => (hb b hbi).2)
+  cases hpi : i.parent with
+  | some p =>
+    have e : procLabel true i = p ++ ':' :: (':' :: (bindingLabel i ++ i.name)) := by
+      simp [procLabel, parentLabel, hpi]
+    rw [e, decodeLabel, splitFirst_clean ':' p _ (hp p hpi)]
+    simp only [hdb]
+    cases i; simp_all
+  | none =>
+    have e : procLabel true i = bindingLabel i ++ i.name := by simp [procLabel, parentLabel, hpi]
+    have hc : (bindingLabel i ++ i.name).contains ':' = false := by
+      cases hbi : i.binder with
+      | none => simpa [bindingLabel, hbi] using hn1
+      | some b =>
+        have := (hb b hbi).1
+        simp only [bindingLabel, hbi, List.contains_eq_mem, List.mem_append, List.mem_cons, List.not_mem_nil,
+          or_false, decide_eq_false_iff_not, not_or] at this hn1 ⊢
+        refine ⟨⟨this, by decide⟩, hn1⟩
+    rw [e, decodeLabel, splitFirst_none ':' _ hc]
+    simp only [hdb]
+    cases i; simp_all
+
 end Ford.Graph
